@@ -93,5 +93,13 @@ func (u *URL) UnmarshalJSON(b []byte) (err error) {
 		}
 	}
 
-	return u.UnmarshalText(b[1 : l-1])
+	// Decode the JSON string, since it may contain escape sequences, such as
+	// the ones encoding/json itself produces for '&', '<', and '>'.
+	var text string
+	err = json.Unmarshal(b, &text)
+	if err != nil {
+		return err
+	}
+
+	return u.UnmarshalText([]byte(text))
 }
